@@ -178,7 +178,7 @@ func invalidate(r *verifrt.Rand, rep *jreport) (body []byte, why string) {
 		ensureProg().GOARCH = verifrt.Pick(r, []string{"386", "", "AMD64"})
 		why = "goarch"
 	case 5:
-		ensureProg().GoVersion = verifrt.Pick(r, []string{"go1.22.10", "go1.22", "", "devel"})
+		ensureProg().GoVersion = verifrt.Pick(r, []string{"go1.22.10", "go1.22", "", "devel", "go1.22.1 X:loopvar", "go1.21.5 built by jane.doe@example.com", "go1.22.1 ", " go1.22.1", "go1.22.1\n"})
 		why = "goversion"
 	case 6:
 		ensureProg().Program = verifrt.Pick(r, []string{"cmd/gofmt", "golang.org/x/tools/gopls2", "", "gopls"})
@@ -203,14 +203,18 @@ func invalidate(r *verifrt.Rand, rep *jreport) (body []byte, why string) {
 		if p.Counters == nil {
 			p.Counters = map[string]int64{}
 		}
-		p.Counters[verifrt.Pick(r, []string{"flag:", "flag", "flag", "editor", "go/cmd", "flag:{v,x,json}", "flag:V", "editor/opens2", "secret", "crash/crash", "flag:v,x", "flag:{v}", "flag:v:x"})] = 1
+		p.Counters[verifrt.Pick(r, []string{"flag:", "flag", "flag", "editor", "go/cmd", "flag:{v,x,json}", "flag:V", "editor/opens2", "secret", "crash/crash", "flag:v,x", "flag:{v}", "flag:v:x",
+			// an approved stack counter's name and frames, but among the plain counters
+			"crash/crash\nmain.f:+1,+0x1", "crash/crash\ngolang.org/x/tools/gopls.main:+3,+0x1a"})] = 1
 		why = "counter"
 	case 9:
 		p := ensureProg()
 		if p.Stacks == nil {
 			p.Stacks = map[string]int64{}
 		}
-		p.Stacks[verifrt.Pick(r, []string{"crash/crash2\nf:+1", "editor/opens\nf:+1", "crash\ncrash/crash", "\ncrash/crash", "other", "crash", "crash/\nf:+1", "flag\nf:+1"})] = 1
+		p.Stacks[verifrt.Pick(r, []string{"crash/crash2\nf:+1", "editor/opens\nf:+1", "crash\ncrash/crash", "\ncrash/crash", "other", "crash", "crash/\nf:+1", "flag\nf:+1",
+			// approved plain counters, but among the stacks
+			"editor/opens", "flag:v", "go/cmd/build"})] = 1
 		why = "stack"
 	case 10: // empty unapproved program entry
 		cp.Programs = append(cp.Programs, &jprog{Program: "evil.example/p", Version: "v9", GoVersion: "go9", GOOS: "x", GOARCH: "y"})
